@@ -186,10 +186,38 @@ def run(ctx):
     # ------------------------------------------------------------------ iteration
     ctx.rule("iteration")
     b, ps = paths(f, BBT + "::next_square")
-    r = ps[0].ret if len(ps) == 1 else None
-    tz = ("cast", "usize", ("call", None, None))
-    okn = r is not None and r[0] == "call" and r[1] == SQ + "::try_index" and r[2][0][0] == "cast" and r[2][0][2][0] == "call" \
-        and r[2][0][2][1].endswith("trailing_zeros") and r[2][0][2][2] == (SELF0,)
+    # every path answers try_index(trailing_zeros(set)); an explicit early `None` for the empty set is the same answer
+    # (trailing_zeros(0) == 64 is no square index)
+    def is_tz_lookup(x):
+        return x is not None and x[0] == "call" and x[1] == SQ + "::try_index" and x[2][0][0] == "cast" and x[2][0][2][0] == "call" \
+            and x[2][0][2][1].endswith("trailing_zeros") and x[2][0][2][2] == (SELF0,)
+
+    def empty_test(c):
+        e_, v_ = c[0], c[1]
+        if e_[0] == "bin" and e_[1] in ("Eq", "Ne") and isinstance(v_, int) and {e_[2], e_[3]} == {SELF0, ("int", 0, "u64")}:
+            return (e_[1] == "Eq") == bool(v_)
+        return None
+    okn = bool(ps)
+    r = None
+    from .. import panics as _panics
+    from ..ranges import Ranger as _Ranger
+    _aud = _panics.Audit(f)
+    for p_ in ps:
+        if p_.end in ("panic", "diverge") and _aud.path_infeasible(_Ranger(f, {}), p_.conds):
+            continue                # an assertion that intervals show can never fail (e.g. trailing_zeros of a non-zero word < 64)
+        ets = [empty_test(c) for c in p_.conds if not (c[0][0] == "bin" and sym.contains(c[0], lambda y: y[0] == "call" and y[1].endswith("trailing_zeros")))]
+        if any(x is None for x in ets):
+            okn = False
+        elif is_tz_lookup(p_.ret):
+            r = p_.ret
+        elif p_.ret is not None and p_.ret[0] == "agg" and p_.ret[2] == "None" and True in ets:
+            pass
+        elif p_.end in ("panic", "diverge") and True in ets and False in ets:
+            pass
+        else:
+            okn = okn and p_.end in ("panic", "diverge") and False in ets and not is_tz_lookup(p_.ret) and \
+                any(sym.contains(c[0], lambda y: y[0] == "call" and y[1].endswith("trailing_zeros")) for c in p_.conds)
+    okn = okn and r is not None
     ctx.check(okn, "next_square", "next_square is not try_index(trailing_zeros(set)) (lowest member, None when empty): %s" % (sym.show(r)[:120] if r else None), loc(b),
               sample={"next_square": sym.show(r)[:100] if r else None})
     itn = "<" + P + "BitBoardIter as core::iter::traits::iterator::Iterator>::next"
@@ -197,7 +225,38 @@ def run(ctx):
     STATE = ("field", ("field", ("obj", "self"), "0"), "0")
     first = ("call", SQ + "::try_index", (("cast", "usize", ("call", "core::num::<impl u64>::trailing_zeros", (STATE,))),))
     n_none = n_some = 0
+
+    def assertion_dead(p_):
+        """a diverging path whose last decision can never be taken: shown by intervals, or (membership of the lowest
+        set bit) in the bit-function domain for every position of that bit"""
+        if _aud.path_infeasible(_Ranger(f, {}), p_.conds):
+            return True
+        if not p_.conds:
+            return False
+        c = p_.conds[-1]
+        idx = None
+        for t_ in sym.subterms(c[0], lambda x: x[0] == "cast" and x[2][0] == "discr"):
+            idx = t_
+        if idx is None or not isinstance(c[1], int):
+            return False
+        for s in range(64):
+            As = [const_bit(0)] * s + [const_bit(1)] + list(A[s + 1:])
+            try:
+                pr = BitEval({STATE: As}).pred(subst(c[0], idx, ("int", s, "u8")))
+            except CannotBit:
+                return False
+            # pred: ('all'|'notall', [per-bit xnor terms]); the claimed value must be impossible
+            vals = pr[1]
+            if any(x[0] != () for x in vals):
+                return False
+            holds_all = all(x[1] == 1 for x in vals)
+            truth = holds_all if pr[0] == "all" else (not holds_all)
+            if truth == bool(c[1]):
+                return False
+        return True
     for p in ps:
+        if p.end in ("panic", "diverge") and assertion_dead(p):
+            continue
         r = p.ret
         st = p.store.get(("P", "self"))
         # the decision about next_square(state): Some or None
@@ -208,6 +267,9 @@ def run(ctx):
             if a[0] == "issome" and a[1][0] == "call" and a[1][1] == SQ + "::try_index" and sym.contains(a[1], lambda x: x == STATE):
                 nsq = a[1]
                 d = 1 if pol else 0
+            elif c[0][0] == "bin" and c[0][1] in ("Eq", "Ne") and isinstance(c[1], int) and {c[0][2], c[0][3]} == {STATE, ("int", 0, "u64")}:
+                if (c[0][1] == "Eq") == bool(c[1]) and nsq is None:
+                    nsq, d = first, 0          # the state was found empty: next_square() is None
         if nsq is None:
             ctx.fail("iter.next:undecided", "iterator next() does not look at next_square() of its state", loc(b))
             continue
